@@ -67,6 +67,25 @@ Proof.
     + simpl; (split; [|split; reflexivity]). eapply ceq_cong; [rewrite core_set_exp_size; reflexivity|rewrite core_set_exp_size; reflexivity|apply ceq_set_stack; exact H].
 Qed.
 
+(* expand never changes the space selector *)
+Lemma which_set_exp_size : forall x t0 len, ps_which (set_exp_size x t0 len) = ps_which x.
+Proof. intros x t0 len; unfold set_exp_size; repeat destruct (_ =? _); reflexivity. Qed.
+
+Lemma expand_which : forall s prev t keep dword fresh ok s' p l,
+  expand s prev t keep dword fresh ok = XOk s' p l -> ps_which s' = ps_which s.
+Proof.
+  intros s prev t keep dword fresh ok s' p l. unfold expand.
+  destruct (negb ((ps_no_expand s =? 0) || (keep =? 1))); [discriminate|].
+  destruct (ps_which s =? SYSTEM).
+  - destruct (negb (ps_no_expand s =? 0)); [discriminate|].
+    destruct ok; intros H; inversion H; subst; rewrite which_set_exp_size; reflexivity.
+  - destruct (negb (ps_no_expand s =? 0)); [discriminate|].
+    destruct (user_malloc (ps_stack s) (prev * lword_of t dword) HEAD) as [r k1]. destruct r as [off|].
+    + destruct (negb (off mod 8 =? 0) && ((t =? c_LUSUP) || (t =? c_UCOL))); intros H; inversion H; subst;
+        rewrite which_set_exp_size; reflexivity.
+    + intros H; inversion H; subst. rewrite which_set_exp_size. reflexivity.
+Qed.
+
 (* same shape for the retry loop *)
 Definition retry_eq (r1 r2 : option (pstate * option Z * option Z * option Z * Z * Z) + mres) : Prop :=
   match r1, r2 with
@@ -79,33 +98,40 @@ Definition retry_eq (r1 r2 : option (pstate * option Z * option Z * option Z * Z
   | _, _ => False
   end.
 
-Lemma retry_core : forall fuel s1 s2 a u l us nzl nzu nzlu ok,
-  ceq s1 s2 -> retry_eq (retry_loop fuel s1 a u l us nzl nzu nzlu ok) (retry_loop fuel s2 a u l us nzl nzu nzlu ok).
+Lemma retry_core : forall fuel s1 s2 a u l us nzl nzu nzlu rt1 ru1 rt2 ru2 ok,
+  ceq s1 s2 -> ((ps_which s1 =? SYSTEM) = false -> rt1 = rt2 /\ ru1 = ru2) ->
+  retry_eq (retry_loop fuel s1 a u l us nzl nzu nzlu rt1 ru1 ok) (retry_loop fuel s2 a u l us nzl nzu nzlu rt2 ru2 ok).
 Proof.
-  induction fuel as [|f IH]; intros s1 s2 a u l us nzl nzu nzlu ok H.
+  induction fuel as [|f IH]; intros s1 s2 a u l us nzl nzu nzlu rt1 ru1 rt2 ru2 ok H HR.
   - simpl. destruct (is_some u && is_some l && is_some us); simpl; auto 10.
   - cbn [retry_loop].
     destruct (is_some u && is_some l && is_some us); [simpl; auto 10|].
     pose proof H as (Hw & Hn & Hd & Hk).
-    rewrite Hw.
-    set (s1' := if ps_which s2 =? SYSTEM then s1 else set_stack s1 _).
-    set (s2' := if ps_which s2 =? SYSTEM then s2 else set_stack s2 _).
+    rewrite Hw in HR. rewrite Hw.
+    set (s1' := if ps_which s2 =? SYSTEM then s1 else _).
+    set (s2' := if ps_which s2 =? SYSTEM then s2 else _).
     assert (Hc : ceq s1' s2').
     { subst s1' s2'. destruct (ps_which s2 =? SYSTEM) eqn:EW; [assumption|].
+      destruct (HR eq_refl) as [-> ->].
       rewrite Hk by (rewrite Hw; exact EW). apply ceq_set_stack; assumption. }
+    assert (HR' : (ps_which s1' =? SYSTEM) = false -> rt1 = rt2 /\ ru1 = ru2).
+    { pose proof Hc as (Hw' & _). subst s1' s2'. destruct (ps_which s2 =? SYSTEM) eqn:EW.
+      - rewrite Hw, EW. discriminate.
+      - intros _. apply HR. reflexivity. }
     pose proof Hc as (_ & _ & Hd' & _).
-    destruct (Z.quot nzu 2 <? Z.quot (fa_annz a) 2).
+    destruct ((Z.quot nzu 2 <? Z.quot (fa_annz a) 2) || (Z.quot nzu 2 <? 1)).
     + simpl. rewrite Hd'. auto.
     + pose proof (expand_core s1' s2' (Z.quot nzu 2) c_UCOL 0 (fa_dword a) (fa_fresh a) ok Hc) as E1.
-      destruct (expand s1' _ c_UCOL _ _ _ _) as [t1 p1 l1|]; destruct (expand s2' _ c_UCOL _ _ _ _) as [t2 p2 l2|]; simpl in E1; try contradiction; [|exact I].
+      destruct (expand s1' _ c_UCOL _ _ _ _) as [t1 p1 l1|] eqn:Q1; destruct (expand s2' _ c_UCOL _ _ _ _) as [t2 p2 l2|]; simpl in E1; try contradiction; [|exact I].
       destruct E1 as (E1 & -> & ->).
       pose proof (expand_core t1 t2 (Z.quot nzl 2) c_LSUB 0 (fa_dword a) (fa_fresh a) ok E1) as E2.
-      destruct (expand t1 _ c_LSUB _ _ _ _) as [t3 p3 l3|]; destruct (expand t2 _ c_LSUB _ _ _ _) as [t4 p4 l4|]; simpl in E2; try contradiction; [|exact I].
+      destruct (expand t1 _ c_LSUB _ _ _ _) as [t3 p3 l3|] eqn:Q2; destruct (expand t2 _ c_LSUB _ _ _ _) as [t4 p4 l4|]; simpl in E2; try contradiction; [|exact I].
       destruct E2 as (E2 & -> & ->).
       pose proof (expand_core t3 t4 l2 c_USUB 1 (fa_dword a) (fa_fresh a) ok E2) as E3.
-      destruct (expand t3 _ c_USUB _ _ _ _) as [t5 p5 l5|]; destruct (expand t4 _ c_USUB _ _ _ _) as [t6 p6 l6|]; simpl in E3; try contradiction; [|exact I].
+      destruct (expand t3 _ c_USUB _ _ _ _) as [t5 p5 l5|] eqn:Q3; destruct (expand t4 _ c_USUB _ _ _ _) as [t6 p6 l6|]; simpl in E3; try contradiction; [|exact I].
       destruct E3 as (E3 & -> & ->).
-      apply IH; assumption.
+      apply IH; [assumption|].
+      apply expand_which in Q1, Q2, Q3. rewrite Q3, Q2, Q1. exact HR'.
 Qed.
 
 (* the threads' work arrays *)
@@ -200,16 +226,16 @@ Proof.
       match goal with |- ps_glu (set_exp_size ?x ?tt ?ll) = _ /\ _ => destruct (set_exp_size_frame x tt ll) as [A B]; rewrite A, B; split; reflexivity end.
 Qed.
 
-Lemma retry_glu : forall fuel s a u l us nzl nzu nzlu ok s' u' l' us' x y,
-  retry_loop fuel s a u l us nzl nzu nzlu ok = inl (Some (s', u', l', us', x, y)) -> ps_glu s' = ps_glu s /\ ps_exp s' = ps_exp s.
+Lemma retry_glu : forall fuel s a u l us nzl nzu nzlu rt ru ok s' u' l' us' x y,
+  retry_loop fuel s a u l us nzl nzu nzlu rt ru ok = inl (Some (s', u', l', us', x, y)) -> ps_glu s' = ps_glu s /\ ps_exp s' = ps_exp s.
 Proof.
-  induction fuel as [|f IH]; intros s a u l us nzl nzu nzlu ok s' u' l' us' x y.
+  induction fuel as [|f IH]; intros s a u l us nzl nzu nzlu rt ru ok s' u' l' us' x y.
   - simpl. destruct (is_some u && is_some l && is_some us); [|discriminate]. intros H; inversion H; subst; split; reflexivity.
   - cbn [retry_loop]. destruct (is_some u && is_some l && is_some us).
     + intros H; inversion H; subst; split; reflexivity.
-    + set (s1 := if ps_which s =? SYSTEM then s else set_stack s _).
+    + set (s1 := if ps_which s =? SYSTEM then s else _).
       assert (G1 : ps_glu s1 = ps_glu s /\ ps_exp s1 = ps_exp s) by (subst s1; destruct (ps_which s =? SYSTEM); split; reflexivity).
-      destruct (Z.quot nzu 2 <? Z.quot (fa_annz a) 2); [discriminate|].
+      destruct ((Z.quot nzu 2 <? Z.quot (fa_annz a) 2) || (Z.quot nzu 2 <? 1)); [discriminate|].
       destruct (expand s1 _ c_UCOL _ _ _ _) as [t1 p1 l1|] eqn:E1; [|discriminate].
       destruct (expand t1 _ c_LSUB _ _ _ _) as [t2 p2 l2|] eqn:E2; [|discriminate].
       destruct (expand t2 _ c_USUB _ _ _ _) as [t3 p3 l3|] eqn:E3; [|discriminate].
@@ -244,10 +270,16 @@ Lemma mi_alloc_core : forall u1 u2 a nzl nzu nzlu ok, ceq u1 u2 -> ps_exp u1 = p
 Proof.
   intros u1 u2 a nzl nzu nzlu ok HC HX HD. unfold mi_alloc.
   destruct (mi_int_arrays_core u1 u2 a HC) as (v1 & v2 & st & io & -> & -> & HCv & GV1 & GV2 & XV1 & XV2).
+  destruct (negb io).
+  { (* the nine integer arrays do not fit: early failure return, same value *)
+    simpl. pose proof HCv as (_ & _ & Hdv & _). rewrite Hdv. reflexivity. }
   pose proof (expand_core v1 v2 nzlu c_LUSUP 0 (fa_dword a) (fa_fresh a) ok HCv) as E1.
   destruct (expand v1 nzlu c_LUSUP _ _ _ _) as [a1 p1 l1|] eqn:Q1; destruct (expand v2 nzlu c_LUSUP _ _ _ _) as [a2 p2 l2|] eqn:Q2;
     simpl in E1; try contradiction; [|exact I].
-  destruct E1 as (E1 & -> & ->).
+  destruct E1 as (E1 & -> & ->). cbv zeta.
+  assert (HRT : (ps_which a1 =? SYSTEM) = false ->
+                k_top1 (ps_stack a1) = k_top1 (ps_stack a2) /\ k_used (ps_stack a1) = k_used (ps_stack a2)).
+  { intros W. destruct E1 as (_ & _ & _ & Hk1). rewrite (Hk1 W). split; reflexivity. }
   pose proof (expand_core a1 a2 nzu c_UCOL 0 (fa_dword a) (fa_fresh a) ok E1) as E2.
   destruct (expand a1 _ c_UCOL _ _ _ _) as [b1 p3 l3|] eqn:Q3; destruct (expand a2 _ c_UCOL _ _ _ _) as [b2 p4 l4|] eqn:Q4;
     simpl in E2; try contradiction; [|exact I].
@@ -260,9 +292,13 @@ Proof.
   destruct (expand c1 _ c_USUB _ _ _ _) as [d1 p7 l7|] eqn:Q7; destruct (expand c2 _ c_USUB _ _ _ _) as [d2 p8 l8|] eqn:Q8;
     simpl in E4; try contradiction; [|exact I].
   destruct E4 as (E4 & -> & ->).
-  pose proof (retry_core 64 d1 d2 a p4 p6 p8 l6 l8 l2 ok E4) as E5.
-  destruct (retry_loop 64 d1 a p4 p6 p8 l6 l8 l2 ok) as [[[[[[[e1 q1] q2] q3] x1] y1]|]|r1] eqn:Q9;
-    destruct (retry_loop 64 d2 a p4 p6 p8 l6 l8 l2 ok) as [[[[[[[e2 q4] q5] q6] x2] y2]|]|r2] eqn:Q10;
+  assert (HRT' : (ps_which d1 =? SYSTEM) = false ->
+                 k_top1 (ps_stack a1) = k_top1 (ps_stack a2) /\ k_used (ps_stack a1) = k_used (ps_stack a2)).
+  { rewrite (expand_which _ _ _ _ _ _ _ _ _ _ Q7), (expand_which _ _ _ _ _ _ _ _ _ _ Q5), (expand_which _ _ _ _ _ _ _ _ _ _ Q3). exact HRT. }
+  pose proof (retry_core 64 d1 d2 a p4 p6 p8 l6 l8 l2 (k_top1 (ps_stack a1)) (k_used (ps_stack a1))
+                         (k_top1 (ps_stack a2)) (k_used (ps_stack a2)) ok E4 HRT') as E5.
+  destruct (retry_loop 64 d1 a p4 p6 p8 l6 l8 l2 _ _ ok) as [[[[[[[e1 q1] q2] q3] x1] y1]|]|r1] eqn:Q9;
+    destruct (retry_loop 64 d2 a p4 p6 p8 l6 l8 l2 _ _ ok) as [[[[[[[e2 q4] q5] q6] x2] y2]|]|r2] eqn:Q10;
     simpl in E5; try contradiction; try exact I;
     try (destruct r1; simpl in E5; contradiction); try (destruct r2; simpl in E5; contradiction).
   - destruct E5 as (E5 & -> & -> & -> & -> & ->).
@@ -367,14 +403,14 @@ Lemma user_is_not_system : forall w, (w =? USER) = true -> (w =? SYSTEM) = false
 Proof. intros w H; apply Z.eqb_eq in H; subst; reflexivity. Qed.
 
 (* when MemInit returns 0 the three limits it reports are the ones it stored in Glu *)
-Lemma retry_inr_not_ok : forall fuel s a u l us nzl nzu nzlu ok r,
-  retry_loop fuel s a u l us nzl nzu nzlu ok = inr r ->
+Lemma retry_inr_not_ok : forall fuel s a u l us nzl nzu nzlu rt ru ok r,
+  retry_loop fuel s a u l us nzl nzu nzlu rt ru ok = inr r ->
   match r with MOk _ _ _ _ => False | MEstimate _ _ => False | _ => True end.
 Proof.
-  induction fuel as [|f IH]; intros s a u l us nzl nzu nzlu ok r.
+  induction fuel as [|f IH]; intros s a u l us nzl nzu nzlu rt ru ok r.
   - simpl. destruct (is_some u && is_some l && is_some us); [discriminate|]. intros H; inversion H; exact I.
   - cbn [retry_loop]. destruct (is_some u && is_some l && is_some us); [discriminate|].
-    destruct (Z.quot nzu 2 <? Z.quot (fa_annz a) 2); [intros H; inversion H; exact I|].
+    destruct ((Z.quot nzu 2 <? Z.quot (fa_annz a) 2) || (Z.quot nzu 2 <? 1)); [intros H; inversion H; exact I|].
     destruct (expand _ _ c_UCOL _ _ _ _) as [t1 p1 l1|]; [|intros H; inversion H; exact I].
     destruct (expand t1 _ c_LSUB _ _ _ _) as [t2 p2 l2|]; [|intros H; inversion H; exact I].
     destruct (expand t2 _ c_USUB _ _ _ _) as [t3 p3 l3|]; [|intros H; inversion H; exact I].
@@ -386,12 +422,12 @@ Lemma mi_alloc_ok_glu : forall s a nzl nzu nzlu ok m x y z,
   g_nzlmax (ps_glu m) = x /\ g_nzumax (ps_glu m) = y /\ g_nzlumax (ps_glu m) = z.
 Proof.
   intros s a nzl nzu nzlu ok m x y z. unfold mi_alloc.
-  destruct (mi_int_arrays s a) as [[v st] io].
-  destruct (expand v nzlu c_LUSUP _ _ _ _) as [a1 p1 l1|]; [|discriminate].
+  destruct (mi_int_arrays s a) as [[v st] io]. destruct (negb io); [discriminate|].
+  destruct (expand v nzlu c_LUSUP _ _ _ _) as [a1 p1 l1|]; [|discriminate]. cbv zeta.
   destruct (expand a1 nzu c_UCOL _ _ _ _) as [b1 p2 l2|]; [|discriminate].
   destruct (expand b1 nzl c_LSUB _ _ _ _) as [c1 p3 l3|]; [|discriminate].
   destruct (expand c1 l2 c_USUB _ _ _ _) as [d1 p4 l4|]; [|discriminate].
-  destruct (retry_loop 64 d1 a p2 p3 p4 l3 l4 l1 ok) as [[[[[[[e1 q1] q2] q3] x1] y1]|]|r1] eqn:Q; [| discriminate |].
+  destruct (retry_loop 64 d1 a p2 p3 p4 l3 l4 l1 _ _ ok) as [[[[[[[e1 q1] q2] q3] x1] y1]|]|r1] eqn:Q; [| discriminate |].
   - destruct (negb (is_some p1)); [discriminate|]. intros H; inversion H; subst. simpl. repeat split; reflexivity.
   - intros H; subst r1. apply retry_inr_not_ok in Q. contradiction.
 Qed.
@@ -728,18 +764,17 @@ Proof.
     + intros H; inversion H; subst. rewrite set_exp_size_arr, W. split; [exact A|reflexivity].
 Qed.
 
-Lemma retry_arr : forall fuel s a u l us nzl nzu nzlu ok s' u' l' us' x y,
-  retry_loop fuel s a u l us nzl nzu nzlu ok = inl (Some (s', u', l', us', x, y)) -> arr s' = arr s /\ ps_which s' = ps_which s.
+Lemma retry_arr : forall fuel s a u l us nzl nzu nzlu rt ru ok s' u' l' us' x y,
+  retry_loop fuel s a u l us nzl nzu nzlu rt ru ok = inl (Some (s', u', l', us', x, y)) -> arr s' = arr s /\ ps_which s' = ps_which s.
 Proof.
-  induction fuel as [|f IH]; intros s a u l us nzl nzu nzlu ok s' u' l' us' x y.
+  induction fuel as [|f IH]; intros s a u l us nzl nzu nzlu rt ru ok s' u' l' us' x y.
   - simpl. destruct (is_some u && is_some l && is_some us); [|discriminate]. intros H; inversion H; subst; split; reflexivity.
   - cbn [retry_loop]. destruct (is_some u && is_some l && is_some us).
     + intros H; inversion H; subst; split; reflexivity.
-    + set (s1 := if ps_which s =? SYSTEM then s else set_stack s _).
+    + set (s1 := if ps_which s =? SYSTEM then s else _).
       assert (G1 : arr s1 = arr s /\ ps_which s1 = ps_which s).
-      { subst s1. destruct (ps_which s =? SYSTEM); [split; reflexivity|]. unfold arr, user_free; simpl.
-        change (HEAD =? HEAD) with true. simpl. split; reflexivity. }
-      destruct (Z.quot nzu 2 <? Z.quot (fa_annz a) 2); [discriminate|].
+      { subst s1. destruct (ps_which s =? SYSTEM); [split; reflexivity|]. unfold arr; simpl. split; reflexivity. }
+      destruct ((Z.quot nzu 2 <? Z.quot (fa_annz a) 2) || (Z.quot nzu 2 <? 1)); [discriminate|].
       destruct (expand s1 _ c_UCOL _ _ _ _) as [t1 p1 l1|] eqn:E1; [|discriminate].
       destruct (expand t1 _ c_LSUB _ _ _ _) as [t2 p2 l2|] eqn:E2; [|discriminate].
       destruct (expand t2 _ c_USUB _ _ _ _) as [t3 p3 l3|] eqn:E3; [|discriminate].
@@ -761,15 +796,16 @@ Proof.
       destruct (user_malloc_list (ps_stack s) (int_array_sizes (fa_n a)) true) as [k okk]. simpl in A.
       intros H; inversion H; subst. unfold arr; simpl. repeat split; try reflexivity; exact A. }
   destruct (mi_int_arrays s a) as [[v st] io] eqn:Q0. destruct (IA v st io eq_refl) as (V1 & V2 & V3 & V4).
-  destruct (expand v nzlu c_LUSUP _ _ _ _) as [a1 p1 l1|] eqn:Q1; [|discriminate].
+  destruct (negb io); [discriminate|].
+  destruct (expand v nzlu c_LUSUP _ _ _ _) as [a1 p1 l1|] eqn:Q1; [|discriminate]. cbv zeta.
   destruct (expand a1 nzu c_UCOL _ _ _ _) as [b1 p2 l2|] eqn:Q2; [|discriminate].
   destruct (expand b1 nzl c_LSUB _ _ _ _) as [c1 p3 l3|] eqn:Q3; [|discriminate].
   destruct (expand c1 l2 c_USUB _ _ _ _) as [d1 p4 l4|] eqn:Q4; [|discriminate].
-  destruct (retry_loop 64 d1 a p2 p3 p4 l3 l4 l1 ok) as [[[[[[[e1 q1] q2] q3] x1] y1]|]|r1] eqn:Q; [| discriminate |].
+  destruct (retry_loop 64 d1 a p2 p3 p4 l3 l4 l1 _ _ ok) as [[[[[[[e1 q1] q2] q3] x1] y1]|]|r1] eqn:Q; [| discriminate |].
   - destruct (negb (is_some p1)); [discriminate|]. intros H; inversion H; subst.
     pose proof (expand_glu _ _ _ _ _ _ _ _ _ _ Q1) as [G1 _]. pose proof (expand_glu _ _ _ _ _ _ _ _ _ _ Q2) as [G2 _].
     pose proof (expand_glu _ _ _ _ _ _ _ _ _ _ Q3) as [G3 _]. pose proof (expand_glu _ _ _ _ _ _ _ _ _ _ Q4) as [G4 _].
-    pose proof (retry_glu _ _ _ _ _ _ _ _ _ _ _ _ _ _ _ _ Q) as [G5 _].
+    pose proof (retry_glu _ _ _ _ _ _ _ _ _ _ _ _ _ _ _ _ _ _ Q) as [G5 _].
     apply expand_arr in Q1, Q2, Q3, Q4. apply retry_arr in Q.
     destruct Q1 as [A1 B1], Q2 as [A2 B2], Q3 as [A3 B3], Q4 as [A4 B4], Q as [A5 B5].
     unfold arr in *; simpl. rewrite G5, G4, G3, G2, G1, V4. repeat split; congruence.
@@ -933,6 +969,19 @@ Proof.
   rewrite T1, T2, A1, A2, B4, C1, C2. unfold arr. rewrite C3. repeat split; reflexivity.
 Qed.
 
+Lemma mi_alloc_not_estimate : forall s a nzl nzu nzlu ok m v, mi_alloc s a nzl nzu nzlu ok <> MEstimate m v.
+Proof.
+  intros s a nzl nzu nzlu ok m v Q. unfold mi_alloc in Q. destruct (mi_int_arrays _ a) as [[v0 st] io].
+  destruct (negb io); [discriminate|].
+  destruct (expand v0 _ c_LUSUP _ _ _ _) as [a1 p1 l1|]; [|discriminate]. cbv zeta in Q.
+  destruct (expand a1 _ c_UCOL _ _ _ _) as [b1 p2 l2|]; [|discriminate].
+  destruct (expand b1 _ c_LSUB _ _ _ _) as [c1 p3 l3|]; [|discriminate].
+  destruct (expand c1 _ c_USUB _ _ _ _) as [d1 p4 l4|]; [|discriminate].
+  destruct (retry_loop 64 d1 a p2 p3 p4 l3 l4 l1 _ _ ok) as [[[[[[[e1 q1] q2] q3] x1] y1]|]|r1] eqn:QQ; [| discriminate |].
+  - destruct (negb (is_some p1)); discriminate.
+  - subst r1. apply retry_inr_not_ok in QQ. contradiction.
+Qed.
+
 (* a query never reaches the allocation: the limits and the user stack are as before *)
 Lemma gstrf_estimate_frame : forall s a refact sym p lu ok t v,
   gstrf s a refact sym p lu ok = FEstimate t v ->
@@ -951,14 +1000,7 @@ Proof.
     destruct (refact =? c_NO).
     + unfold mem_init_no in Q. cbv zeta in Q. destruct (fa_lwork a =? -1).
       * inversion Q; subst. unfold arr. rewrite G, K, T1, T2, T3. repeat split; reflexivity.
-      * exfalso. unfold mi_alloc in Q. destruct (mi_int_arrays _ a) as [[v0 st] io].
-        destruct (expand v0 _ c_LUSUP _ _ _ _) as [a1 p1 l1|]; [|discriminate].
-        destruct (expand a1 _ c_UCOL _ _ _ _) as [b1 p2 l2|]; [|discriminate].
-        destruct (expand b1 _ c_LSUB _ _ _ _) as [c1 p3 l3|]; [|discriminate].
-        destruct (expand c1 _ c_USUB _ _ _ _) as [d1 p4 l4|]; [|discriminate].
-        destruct (retry_loop 64 d1 a p2 p3 p4 l3 l4 l1 ok) as [[[[[[[e1 q1] q2] q3] x1] y1]|]|r1] eqn:QQ; [| discriminate |].
-        -- destruct (negb (is_some p1)); discriminate.
-        -- subst r1. apply retry_inr_not_ok in QQ. contradiction.
+      * exfalso. eapply mi_alloc_not_estimate; exact Q.
     + unfold mem_init_yes in Q. cbv zeta in Q. destruct (fa_lwork a =? -1); [|discriminate].
       inversion Q; subst. unfold arr. rewrite G, K, T1, T2, T3. repeat split; reflexivity.
 Qed.
@@ -1013,18 +1055,6 @@ Definition out_ok (se : sess) (o : op) (out : outcome) : Prop :=
 
 Lemma query_space_frame : forall s, ps_glu (fst (query_space s)) = ps_glu s /\ arr (fst (query_space s)) = arr s.
 Proof. intros s; unfold query_space; simpl; split; reflexivity. Qed.
-
-Lemma mi_alloc_not_estimate : forall s a nzl nzu nzlu ok m v, mi_alloc s a nzl nzu nzlu ok <> MEstimate m v.
-Proof.
-  intros s a nzl nzu nzlu ok m v Q. unfold mi_alloc in Q. destruct (mi_int_arrays _ a) as [[v0 st] io].
-  destruct (expand v0 _ c_LUSUP _ _ _ _) as [a1 p1 l1|]; [|discriminate].
-  destruct (expand a1 _ c_UCOL _ _ _ _) as [b1 p2 l2|]; [|discriminate].
-  destruct (expand b1 _ c_LSUB _ _ _ _) as [c1 p3 l3|]; [|discriminate].
-  destruct (expand c1 _ c_USUB _ _ _ _) as [d1 p4 l4|]; [|discriminate].
-  destruct (retry_loop 64 d1 a p2 p3 p4 l3 l4 l1 ok) as [[[[[[[e1 q1] q2] q3] x1] y1]|]|r1] eqn:QQ; [| discriminate |].
-  - destruct (negb (is_some p1)); discriminate.
-  - subst r1. apply retry_inr_not_ok in QQ. contradiction.
-Qed.
 
 Lemma gstrf_estimate_lwork : forall s a refact sym p lu ok t v,
   gstrf s a refact sym p lu ok = FEstimate t v -> fa_lwork a = -1.
